@@ -6,6 +6,7 @@ import (
 	"fmt"
 	"math"
 	"sort"
+	"strings"
 
 	art "github.com/Clement-Jean/go-art"
 )
@@ -444,6 +445,51 @@ func (m MonMulti) State(x *Exec) *Violation {
 	for _, s := range m.Mons {
 		if v := s.State(x); v != nil {
 			return v
+		}
+	}
+	return nil
+}
+
+// Light for C15: the tree reached with read-only queries interleaved after every
+// operation must be the tree reached without them, byte for byte.
+func (MonC15) Light(x *Exec, clean *Exec) *Violation {
+	x.Stats.Evaluations++
+	a, pa := rawImage(x.D, nil)
+	b, pb := rawImage(clean.D, nil)
+	if pa != "" || pb != "" {
+		return nil
+	}
+	if !bytes.Equal(a, b) {
+		return viol("tree after "+x.U.OpString(x.Op)+" on a history with read-only queries interleaved after every operation", "identical to the tree reached without the queries: "+DumpString(clean.D.Dump()), DumpString(x.D.Dump()))
+	}
+	// ... and later results are unaffected by the interleaved queries
+	obs := func(d Driver) string {
+		var sb strings.Builder
+		safely(func() {
+			p, ok := d.Min()
+			fmt.Fprintf(&sb, "min=%v,%v ", p, ok)
+			p, ok = d.Max()
+			fmt.Fprintf(&sb, "max=%v,%v size=%d ", p, ok, d.Size())
+			for _, q := range x.U.Probes {
+				v, ok := d.Search(q)
+				fmt.Fprintf(&sb, "%d:%d,%v ", q, v, ok)
+			}
+			fmt.Fprintf(&sb, "all=%v top1=%v", Collect(d.Seq(Query{Kind: SeqAll})), Collect(d.Seq(Query{Kind: SeqTopK, N: 1})))
+		})
+		return sb.String()
+	}
+	if ow, oc := obs(x.D), obs(clean.D); ow != oc {
+		return viol("results (Minimum/Maximum/Size/Search/All/TopK) after "+x.U.OpString(x.Op)+" on a history with read-only queries interleaved", "as without the queries: "+oc, ow)
+	}
+	return nil
+}
+
+func (m MonMulti) Light(x *Exec, clean *Exec) *Violation {
+	for _, s := range m.Mons {
+		if w, ok := s.(Warmer); ok {
+			if v := w.Light(x, clean); v != nil {
+				return v
+			}
 		}
 	}
 	return nil
